@@ -43,8 +43,9 @@ def mkseg(name, nk, eps, chunks=1, xmax=254, tiers=Q, timeout=900, mem_gb=14, ra
                        % (nk, xmax, eps, ('the non-final chunk [0,%d) through make_segmentation(n, start, end, ...)' % range_end) if range_end is not None else 'sequential driver' if chunks <= 1 else 'chunked driver with %d chunks (hook H1: real chunk loop run sequentially)' % chunks))
 
 
-def mapped(name, kt, n, eps=1, epsrec=1, ord_hi=None, tiers=Q, timeout=900):
+def mapped(name, kt, n, eps=1, epsrec=1, ord_hi=None, tiers=Q, timeout=900, frame=False):
     d = dict(KT[kt]); d.update(N=n, EPS=eps, EPSREC=epsrec, FLT='float', VERIF_VEC_CAP=n + 4)
+    if frame: d.update(WITH_FRAME=1)
     if ord_hi is not None: d.update(ORD_HI=ord_hi)
     return dict(name=name, unit='mapped.cpp', harness='h_mapped.c', defs=d, narrow=16 if KT[kt]['KEY_BITS'] == 8 else 0, timeout=timeout, tiers=tiers,
                 cbmc_extra=['--no-array-field-sensitivity'],
@@ -135,6 +136,7 @@ JOBS['C01'] = [
     e2e('e2e_u8_n2_e1_r0', 'uint8_t', 2, 1, 0),
     e2e('e2e_u8_n3_e1_r1', 'uint8_t', 3, 1, 1),
     e2e('e2e_u8_n3_e1_r0', 'uint8_t', 3, 1, 0),
+    e2e('e2e_i8_n3_e1_r0', 'int8_t', 3, 1, 0),
     e2e('e2e_u8_n4_e1_r0', 'uint8_t', 4, 1, 0, tiers=T, timeout=3000),
     e2e('e2e_u8_n4_e1_r0_k15', 'uint8_t', 4, 1, 0, tiers=T, timeout=3000, extra=dict(ORD_HI=15), narrow=8),
     e2e('e2e_u8_n4_e1_r0_pAAAB', 'uint8_t', 4, 1, 0, timeout=1800, extra=dict(PATTERN=3)),
@@ -161,7 +163,7 @@ JOBS['C03'] += [mkseg('mkseg_n2_e0', 2, 0), mkseg('mkseg_n2_e1', 2, 1), mkseg('m
 JOBS['C04'] = [pla('pla_max_k3_e%d_x15' % e, 3, epsfix=e, xmax=15, ymax=6) for e in (0, 1)] + [pla('pla_max_k3_e2_x7', 3, epsfix=2, xmax=7, ymax=12)] + \
               [pla('pla_max_k3_e1_x63', 3, epsfix=1, xmax=63, ymax=6, tiers=T, timeout=3000)]
 JOBS['C14'] = [md('md_contains_n1', 0, 1, 3), md('md_contains_n2', 0, 2, 3)]
-JOBS['C13'] = [md('md_range_n1', 1, 1, 3), md('md_range_n2', 1, 2, 3), md('md_range_n3_skip', 1, 3, 1, miss=0, epsrec=0, timeout=3000, tiers=T, mem_gb=40), md('md_range_n4_skip', 1, 4, 3, miss=0, tiers=T, timeout=3000)]
+JOBS['C13'] = [md('md_range_n1', 1, 1, 3), md('md_range_n2', 1, 2, 3), md('md_range_n3_skip', 1, 3, 1, miss=0, epsrec=0, timeout=3000, tiers=T, mem_gb=40)]
 JOBS['C05'] = [dyn('dyn_q_noidx_b0_o2', 0, 0, 2, idxl=10), dyn('dyn_q_noidx_b0_o3', 0, 0, 3, idxl=10), dyn('dyn_q_noidx_b0_o4', 0, 0, 4, idxl=10, timeout=1500)]
 JOBS['C06'] = [dyn('dyn_it_noidx_b0_o2', 1, 0, 2, idxl=10), dyn('dyn_rng_noidx_b0_o2', 3, 0, 2, idxl=10), dyn('dyn_lbit_noidx_b0_o2', 4, 0, 2, idxl=10), dyn('dyn_it_noidx_b0_o4', 1, 0, 4, idxl=10, tiers=T, timeout=3000)]
 JOBS['C15'] = [dyn('dyn_inv_noidx_b0_o2', 2, 0, 2, idxl=10), dyn('dyn_inv_noidx_b0_o3', 2, 0, 3, idxl=10), dyn('dyn_inv_noidx_b0_o4', 2, 0, 4, idxl=10, tiers=T, timeout=3000, mem_gb=40)]
@@ -177,6 +179,7 @@ JOBS['C01'] += SEG_JOBS
 JOBS['C02'] = JOBS['C01'] + [j_ for j_ in JOBS['C03'] if j_['name'] == 'mkseg_n3_e1_chunk02']
 JOBS['C07'] = [e2e('e2e_u8_n3_e1_r1', 'uint8_t', 3, 1, 1), e2e('e2e_i8_n2_e1_r1', 'int8_t', 2, 1, 1), e2e('e2e_u8_n3_e1_r57_binsearch', 'uint8_t', 3, 1, 57), e2e('e2e_u8_n4_e1_r1', 'uint8_t', 4, 1, 1, tiers=T, timeout=3000)]
 JOBS['C16'] = [e2e('frame_u8_n2_e1_r1', 'uint8_t', 2, 1, 1, extra=dict(WITH_FRAME=1)), e2e('frame_u8_n3_e1_r0', 'uint8_t', 3, 1, 0, extra=dict(WITH_FRAME=1))]
+JOBS['C16'] += [mapped('mappedframe_u8_n2', 'uint8_t', 2, frame=True)]
 JOBS['C16'] += [dynframe('dynframe_q_o2', 0, 2), dynframe('dynframe_it_o2', 1, 2, tiers=T, timeout=3000)]
 JOBS['C20'] = [e2e('reject_u8_n%d' % n, 'uint8_t', n, 1, 1, extra=dict(ALLOW_SENTINEL=1)) for n in (1, 2)] + \
               [e2e('reject_i8_n2', 'int8_t', 2, 1, 0, extra=dict(ALLOW_SENTINEL=1))]
@@ -220,7 +223,7 @@ PROPS = {
                 explanation='Real constructor and contains(p) for every stored multiset and every query point in bounds.'),
     'C15': dict(level='model_checking', outside=['histories longer than NOPS', 'default buffer_level'], assumptions=MODEL,
                 explanation='After every history of NOPS updates the accessor hook reads the private levels: sorted, within capacity, nothing beyond used_levels, index present over exactly the level keys / reset.'),
-    'C16': dict(level='other', outside=['no thread schedule is explored (this family cannot)', 'covered: PGMIndex::search and DynamicPGMIndex find/count/lower_bound (traversal in the thorough tier); the other classes are not'], assumptions=MODEL,
+    'C16': dict(level='other', outside=['no thread schedule is explored (this family cannot)', 'covered: PGMIndex::search, MappedPGMIndex lower/upper_bound/count and DynamicPGMIndex find/count/lower_bound (traversal in the thorough tier); Multidimensional and the sdsl-backed classes are not'], assumptions=MODEL,
                 explanation='Frame condition: a data race needs a write. The wrapper snapshots every byte the index owns, runs search() twice and asserts bit-identity and equal results for all inputs in bounds; '
                             'no write to shared state on any input means no schedule of readers has a race and each call returns what it returns alone.'),
     'C18': dict(level='model_checking', outside=['n > 3', 'key spread > 200 around the symbolic base', 'the dynamic_pgm_index_* functions'], assumptions=MODEL,
